@@ -11,9 +11,10 @@ class Sim:
         self.chans = []      # {"q": [(data, rights)], "dead": bool}
         self.handles = []    # ("S", c) | ("R", c) | ("M", o) | ("SET", [c|None]) | ("SRV", c, connected) | ("G",)
         self.mem = []
+        self.limbo = []      # rights of raw messages a select has handed out and the program has not decoded yet
 
     def held(self):
-        out = []
+        out = list(self.limbo)
         for h in self.handles:
             if h[0] in ("S", "R", "M"):
                 out.append(h)
@@ -150,7 +151,7 @@ class Sim:
                 while self.chans[c]["q"]:
                     data, rights = self.chans[c]["q"].pop(0)
                     if data < 0:
-                        self.gc()
+                        self.limbo += rights      # still referenced by the raw message until the select is over
                         evs.append("SBad %d" % i)
                     else:
                         evs.append("SMsg %d (%d)%%Z %s" % (i, data, self.install(rights)))
@@ -160,6 +161,8 @@ class Sim:
                     H[s] = ("SET", list(ms))
                     self.gc()
             H[s] = ("SET", ms)
+            self.limbo = []
+            self.gc()
             return "QSelect [%s]" % "; ".join(evs)
         if k == "server":
             c = len(self.chans)
